@@ -368,15 +368,16 @@ def infeasible(A, bb):
     others = A.g.facts_at(d)
     for f in own:
         nf = G.negate(f)
-        try:
-            fn_ = G.N(f)
-            if fn_ == ("const", False):
-                return "edge infeasible: constant condition"
-            nn_ = G.N(nf)
-            if nn_[0] in ("cmp", "const"):
-                nf = nn_
-        except Exception:
-            pass
+        if nf[0] not in ("cmp", "const"):
+            # a guard that only becomes a comparison / a constant in normal form (`ptr::eq(p, p)`)
+            try:
+                if G.N(f) == ("const", False):
+                    return "edge infeasible: constant condition"
+                nn_ = G.N(nf)
+                if nn_[0] in ("cmp", "const"):
+                    nf = nn_
+            except Exception:
+                pass
         if nf[0] == "cmp" and G.entails(others, nf) is not None:
             return "edge infeasible: %s contradicts %s" % (G.show(f), [G.show(x) for x in others][:4])
         if nf[0] == "const" and nf[1]:
